@@ -57,6 +57,9 @@ pub struct Sc {
     pub ops: Vec<Op>,
     /// faces probed one at a time (singleton selection) for the independence oracle
     pub probe_faces: Vec<usize>,
+    /// hand every reference mesh to the chain through one reused variable
+    #[serde(default)]
+    pub one_slot: bool,
 }
 
 pub struct Obs {
@@ -76,6 +79,25 @@ fn selection(start: &Start) -> Selection {
         Start::All => Selection::All,
         Start::Indices(v) => Selection::Indices(v.clone()),
     }
+}
+
+/// Run a whole history the way a caller with a single `reference` variable would: before every
+/// near-mesh step the reference mesh is moved into the same storage slot, so consecutive steps see
+/// different meshes at the same address. The criterion may depend on the mesh, never on where it
+/// is stored.
+fn run_history_in_one_slot<'a>(mesh: &'a Mesh, start: &Start, ops: &[Op], refs: &[Mesh]) -> engeom::geom3::mesh::filtering::TriangleFilter<'a> {
+    let mut f = mesh.face_select(selection(start));
+    let mut slot: Mesh = refs[0].clone();
+    for op in ops {
+        match &op.crit {
+            Crit::Facing { dir, angle } => f = f.facing(&Vector3::new(dir[0], dir[1], dir[2]), *angle, op.mode.op()),
+            Crit::Near { reference, all, dist, planar, angle } => {
+                slot = refs[*reference].clone();
+                f = f.near_mesh(&slot, *all, *dist, *planar, *angle, op.mode.op());
+            }
+        }
+    }
+    f
 }
 
 fn apply<'a>(f: engeom::geom3::mesh::filtering::TriangleFilter<'a>, op: &Op, refs: &'a [Mesh]) -> engeom::geom3::mesh::filtering::TriangleFilter<'a> {
@@ -541,14 +563,31 @@ impl Property for C14 {
             }
         };
         let nops = 1 + rng.below(if tier == Tier::Quick { 4 } else { 6 });
-        let ops = (0..nops)
+        let nrefs = refs.len();
+        let mut ops: Vec<Op> = (0..nops)
             .map(|_| Op { crit: gen_crit(rng, &mesh, nrefs), mode: *rng.pick(&[Mode::Add, Mode::Remove, Mode::Keep]) })
             .collect();
+        // sometimes consecutive near-mesh steps use the same tolerances on different references
+        if rng.chance(0.3) {
+            let mut last: Option<(f64, Option<f64>)> = None;
+            for op in ops.iter_mut() {
+                if let Crit::Near { dist, planar, .. } = &mut op.crit {
+                    match last {
+                        Some((d0, p0)) => {
+                            *dist = d0;
+                            *planar = p0;
+                        }
+                        None => last = Some((*dist, *planar)),
+                    }
+                }
+            }
+        }
+        let one_slot = rng.chance(0.4);
         let nprobe = rng.below(9).min(nf);
         let mut probe_faces: Vec<usize> = (0..nprobe).map(|_| rng.below(nf)).collect();
         probe_faces.sort();
         probe_faces.dedup();
-        Sc { label, mesh, refs, start, ops, probe_faces }
+        Sc { label, mesh, refs, start, ops, probe_faces, one_slot }
     }
 
     fn swarm(&self, rng: &mut Rng, sc: &Sc) -> Swarm {
@@ -580,11 +619,15 @@ impl Property for C14 {
         let mut prefixes = Vec::new();
         for k in 0..=sc.ops.len() {
             prefixes.push(sim.op("face_select..collect", b, || {
-                let mut f = mesh.face_select(selection(&sc.start));
-                for op in &sc.ops[..k] {
-                    f = apply(f, op, &refs);
+                if sc.one_slot {
+                    run_history_in_one_slot(&mesh, &sc.start, &sc.ops[..k], &refs).collect()
+                } else {
+                    let mut f = mesh.face_select(selection(&sc.start));
+                    for op in &sc.ops[..k] {
+                        f = apply(f, op, &refs);
+                    }
+                    f.collect()
                 }
-                f.collect()
             }));
         }
         let mut singles = Vec::new();
